@@ -1,1 +1,111 @@
-fn main() { println!("{:?}", quizx::scalar::Scalar4::one_plus_phase(num::Rational64::new(1,4)).verif_coeffs().map(|d| d.verif_raw())); }
+//! qxv — conformance harness binding the TLA+ specification in /verif/spec to zxcalc/quizx.
+//!
+//!   qxv record <engine> --out <prefix> --shards <n> [engine options]
+//!
+//! drives the real code (built from /repo's working tree with --cfg zxcalc_quizx_verif) and
+//! writes ndjson traces that the trace specifications in /verif/mc validate with TLC.
+//! A summary (JSON, one line, prefixed SUMMARY) is printed for the evidence file.
+
+mod absg;
+mod eng_rules;
+mod gens;
+mod util;
+
+use serde_json::json;
+use util::*;
+
+fn parse_family(s: &str) -> gens::Family {
+    let mut f = gens::Family { k: 2, tys: vec!["Z"], phs: vec![0], ets: vec!["H"], nb: 0, vars: vec![], bb: false };
+    for kv in s.split(',') {
+        let (k, v) = kv.split_once('=').expect("k=v");
+        match k {
+            "k" => f.k = v.parse().unwrap(),
+            "tys" => f.tys = v.chars().map(|c| if c == 'Z' { "Z" } else { "X" }).collect(),
+            "phs" => f.phs = v.chars().map(|c| c.to_digit(10).unwrap() as i64).collect(),
+            "ets" => f.ets = v.chars().map(|c| if c == 'N' { "N" } else { "H" }).collect(),
+            "nb" => f.nb = v.parse().unwrap(),
+            "vars" => f.vars = v.chars().map(|c| c.to_digit(10).unwrap()).collect(),
+            "bb" => f.bb = v == "1",
+            _ => panic!("family key {k}"),
+        }
+    }
+    f
+}
+
+fn parse_rand(s: &str) -> gens::RandCfg {
+    let mut c = gens::RandCfg::any_zx();
+    for kv in s.split(',') {
+        if kv.is_empty() {
+            continue;
+        }
+        let (k, v) = kv.split_once('=').expect("k=v");
+        match k {
+            "kind" => {
+                if v == "gl" {
+                    c = gens::RandCfg::graph_like()
+                }
+            }
+            "minsp" => c.min_sp = v.parse().unwrap(),
+            "maxsp" => c.max_sp = v.parse().unwrap(),
+            "maxb" => c.max_b = v.parse().unwrap(),
+            "phs" => c.phs = v.chars().map(|c| c.to_digit(10).unwrap() as i64).collect(),
+            "vars" => c.vars = v.chars().map(|c| c.to_digit(10).unwrap()).collect(),
+            "pvar" => c.pvar = v.parse().unwrap(),
+            "pedge" => c.pedge = v.parse().unwrap(),
+            "scalars" => c.scalars = v == "1",
+            "gadgets" => c.gadgets = v.parse().unwrap(),
+            _ => panic!("rand key {k}"),
+        }
+    }
+    c
+}
+
+fn main() {
+    let args: Vec<String> = std::env::args().collect();
+    install_quiet_panic_hook();
+    if args.len() < 3 || args[1] != "record" {
+        eprintln!("usage: qxv record <engine> --out <prefix> --shards <n> ...");
+        std::process::exit(2);
+    }
+    let engine = args[2].as_str();
+    let out = arg_val(&args, "--out").expect("--out");
+    let shards: usize = arg_num(&args, "--shards", 1);
+    let seed: u64 = arg_num(&args, "--seed", 1);
+    let mut tr = Tr::new(&out, shards);
+    let summary = match engine {
+        "rules" => {
+            let mut st = eng_rules::RuleStats { tuples: 0, accepted: 0, rejected: 0, per_rule: Default::default() };
+            let mut diagrams = 0usize;
+            let stride: usize = arg_num(&args, "--stride", 1);
+            let offset: usize = seed as usize % stride.max(1);
+            for fam in args.iter().enumerate().filter(|(_, a)| *a == "--fam").map(|(i, _)| args[i + 1].clone()) {
+                let f = parse_family(&fam);
+                let mut idx = 0usize;
+                gens::enum_family(&f, |a| {
+                    if idx % stride == offset {
+                        eng_rules::record_diagram(&a, &mut tr, &mut st);
+                        diagrams += 1;
+                    }
+                    idx += 1;
+                });
+            }
+            let nrand: usize = arg_num(&args, "--random", 0);
+            if nrand > 0 {
+                let cfg = parse_rand(&arg_val(&args, "--rand").unwrap_or_default());
+                let mut r = gens::rng(seed);
+                for _ in 0..nrand {
+                    let a = gens::random_diagram(&mut r, &cfg);
+                    eng_rules::record_diagram(&a, &mut tr, &mut st);
+                    diagrams += 1;
+                }
+            }
+            json!({"diagrams": diagrams, "tuples": st.tuples, "accepted": st.accepted, "rejected": st.rejected, "per_rule": st.per_rule})
+        }
+        _ => {
+            eprintln!("unknown engine {engine}");
+            std::process::exit(2);
+        }
+    };
+    let (groups, lines) = tr.finish();
+    println!("SUMMARY {}", json!({"engine": engine, "groups": groups, "lines": lines, "detail": summary}));
+}
